@@ -173,3 +173,6 @@ package compile
 //@   bodyensures 2 bytes_const: tp(d, old(d.ip)) == 1 ==> typeis(constants[rangeindex + 1], Bytes) && strid(as(constants[rangeindex + 1], Bytes)) == ts(d, old(d.is)) && d.ip == old(d.ip) + 2 && d.is == old(d.is) + 1
 //@   bodyensures 2 int_const: tp(d, old(d.ip)) == 2 ==> typeis(constants[rangeindex + 1], int64) && as(constants[rangeindex + 1], int64) == tp(d, old(d.ip) + 1) && d.ip == old(d.ip) + 2 && d.is == old(d.is)
 //@   bodyensures 2 float_const: tp(d, old(d.ip)) == 3 ==> typeis(constants[rangeindex + 1], float64) && fbits(as(constants[rangeindex + 1], float64)) == tp(d, old(d.ip) + 1) && d.ip == old(d.ip) + 2 && d.is == old(d.is)
+
+// the decoded line table is read only after lntOnce.Do has run (C05: no unsynchronised read)
+//@ readafter [C05] Funcode.lnt : sync.Once.Do except Funcode.decodeLNT
